@@ -110,6 +110,39 @@ func runC07(w *World, p map[string]int) {
 		w.Violate("C07.start", "Start(Y): %v", err)
 		return
 	}
+	// co-hosted variant: Y already holds the other wallet of X (restored and
+	// ready) when src arrives, so transactions the two wallets share are
+	// already on record in Y's store
+	var co, coNw *WalletState
+	if len(ids) > 1 && t.Bool(50) {
+		for _, id := range ids {
+			if id != src.ID {
+				co = x.Wallets[id]
+			}
+		}
+		var cerr error
+		coNw, cerr = y.ImportMnemonic(co, uint32(len(co.Issued)), true)
+		if cerr != nil {
+			w.Violate("C07.restore-failed", "restore of the co-hosted wallet: %v", cerr)
+			return
+		}
+		if !quiesceAll(w, "C07", 60000) {
+			return
+		}
+		w.Stat("probe.restore_next_to_ready_wallet")
+	}
+	listed := func(ls []WalletListing) *WalletListing {
+		for i := range ls {
+			if ls[i].ID == src.ID {
+				return &ls[i]
+			}
+		}
+		return nil
+	}
+	nWant := 1
+	if co != nil {
+		nWant = 2
+	}
 	hint := uint32(len(src.Issued))
 	if t.Bool(40) {
 		hint = uint32(t.Int(len(src.Issued) + 2))
@@ -150,11 +183,11 @@ func runC07(w *World, p map[string]int) {
 	}
 	// importing status: listed as not ready and not selectable until done
 	ls, lerr := y.ListWallets()
-	if lerr != nil || len(ls) != 1 {
+	if lerr != nil || len(ls) != nWant || listed(ls) == nil {
 		w.Violate("C07.wallets-error", "Wallets(): %+v %v", ls, lerr)
 		return
 	}
-	if !ls[0].Ready {
+	if !listed(ls).Ready {
 		w.Stat("probe.importing_status_seen")
 		if _, uerr := y.Use(nw.ID, true); uerr == nil {
 			w.Violate("C07.selectable-while-importing", "UseWallet succeeded while the wallet is listed as importing")
@@ -176,7 +209,7 @@ func runC07(w *World, p map[string]int) {
 		case 2:
 			w.runSteps(1 + t.Int(15))
 		}
-		if ls2, e := y.ListWallets(); e == nil && len(ls2) == 1 && !ls2[0].Ready {
+		if ls2, e := y.ListWallets(); e == nil && listed(ls2) != nil && !listed(ls2).Ready {
 			w.Stat("probe.chain_moved_while_importing")
 		}
 	}
@@ -188,7 +221,7 @@ func runC07(w *World, p map[string]int) {
 		return
 	}
 	ls, lerr = y.ListWallets()
-	if lerr != nil || len(ls) != 1 || !ls[0].Ready || ls[0].Removing {
+	if lerr != nil || len(ls) != nWant || listed(ls) == nil || !listed(ls).Ready || listed(ls).Removing {
 		w.Violate("C07.import-unfinished", "after the chain stopped moving the restored wallet is %+v (%v); queue=%d", ls, lerr, y.WM.SimTaskQueueLen())
 		return
 	}
@@ -201,6 +234,13 @@ func runC07(w *World, p map[string]int) {
 	lx := w.CheckWallet(x, src, "C07")
 	if lx == nil || len(w.Violations) > 0 {
 		return
+	}
+	if coNw != nil {
+		coNw.Issued = nil
+		if w.CheckWallet(y, coNw, "C07") == nil || len(w.Violations) > 0 {
+			return
+		}
+		w.Stat("check.cohosted_wallet_equal")
 	}
 	// every address of the original that has history and lies within the
 	// reach of the documented scan must have been rediscovered: its coins are
